@@ -18,6 +18,9 @@ class Topo:
         self.two_targets_in_middle = self.j21 != self.j12
         extra = self.nyf - self.ny
         self.nblocks = extra // self.myg if self.myg else None
+        if self.myg and self.nblocks == 0:
+            # y_boundary_guards is set but the grid has no targets (core-only): no guard cells stored
+            self.myg = 0
         self.raw = (self.j11, self.j21, self.j12, self.j22)
         # what BOUT++ does with out-of-order values when it loads the grid
         # (BoutMesh::load): it silently resets them, which changes the topology
